@@ -1,4 +1,5 @@
-CONSTANTS MAXLEN = 10  MAXREP = 6  CRLF = FALSE
+\* model check only (the check itself uses gen/FileSplit_gen_quick.cfg: same space, check + generation in one run)
+CONSTANTS MAXLEN = 8  MAXREP = 6  CRLFLEN = 6
 SPECIFICATION Spec
 INVARIANTS C15_File ModelShape
 CHECK_DEADLOCK FALSE
